@@ -406,32 +406,31 @@ func c07Wiring(c *Ctx, g *load.G) {
 		r.Fatal("anchor builder.buildParser not found")
 		return
 	}
-	var rejectPos, firstWrite ast.Node
-	resVar := ""
-	for _, st := range fd.Body.List {
-		if as, ok := st.(*ast.AssignStmt); ok && len(as.Rhs) == 1 && strings.HasPrefix(nospace(as.Rhs[0]), "PrepareGrammar(") {
-			resVar = nospace(as.Lhs[0])
-		}
-		if is, ok := st.(*ast.IfStmt); ok {
-			cond := nospace(is.Cond)
-			if (cond == "!b.supportLeftRecursion&&"+resVar || cond == resVar+"&&!b.supportLeftRecursion") && resVar != "" {
-				if len(is.Body.List) == 1 {
-					if rs, ok := is.Body.List[0].(*ast.ReturnStmt); ok && strings.Contains(nospace(rs.Results[0]), "ErrHaveLeftRecursion") {
-						rejectPos = is
-					}
-				}
+	// on the normalised paths: whatever writes or accepts has established "no left recursion, or support is on";
+	// the path with left recursion and no support returns the dedicated error and writes nothing
+	b := recvName(fd)
+	V := "res0(PrepareGrammar(" + firstParam(fd) + "))"
+	S := b + ".supportLeftRecursion"
+	ok := true
+	nReject := 0
+	for _, p := range c.builderNorm().normPaths(fd) {
+		writes := p.evIndex("call", 0, func(s string) bool { return strings.HasPrefix(s, b+".write") }) >= 0
+		ret := lastReturn(p)
+		if writes || ret == b+".err" || ret == "nil" {
+			if !(p.holds("!"+V) || p.holds(S) || p.holds("!"+V+"||"+S)) {
+				ok = false
 			}
+			continue
 		}
-		if firstWrite == nil {
-			for _, ce := range callsIn(st) {
-				if strings.HasPrefix(callName(ce), "b.write") {
-					firstWrite = ce
-					break
-				}
+		if p.holds(V) && p.holds("!"+S) {
+			if strings.Contains(ret, "ErrHaveLeftRecursion") {
+				nReject++
+			} else {
+				ok = false
 			}
 		}
 	}
-	ok := rejectPos != nil && firstWrite != nil && rejectPos.Pos() < firstWrite.Pos()
+	ok = ok && nReject > 0
 	r.Check(ok, "C07-b", "G.builder.buildParser:reject-before-write", "", g.Where(fd.Pos()), "left-recursion error returned before anything is written when support is off", "the rejection of left recursion does not precede the first write (or is missing)")
 	// PrepareGrammar order
 	pg := load.FuncDecl(bp, "", "PrepareGrammar")
@@ -458,54 +457,20 @@ func c07Wiring(c *Ctx, g *load.G) {
 	// MakeFirstGraph
 	mg := load.FuncDecl(bp, "", "MakeFirstGraph")
 	if mg != nil {
-		okG := false
-		ast.Inspect(mg.Body, func(n ast.Node) bool {
-			rs, ok := n.(*ast.RangeStmt)
-			if !ok || nospace(rs.X) != mg.Type.Params.List[0].Names[0].Name || rs.Key == nil || rs.Value == nil {
-				return true
-			}
-			names := ""
-			for _, st := range rs.Body.List {
-				if as, ok := st.(*ast.AssignStmt); ok {
-					if nospace(as.Rhs[0]) == nospace(rs.Value)+".InitialNames()" {
-						names = nospace(as.Lhs[0])
-					}
-					if nospace(as.Lhs[0]) == "graph["+nospace(rs.Key)+"]" && nospace(as.Rhs[0]) == names && names != "" {
-						okG = true
-					}
-				}
-			}
-			return true
-		})
-		r.Check(okG, "C07-b", "G.builder.MakeFirstGraph:edges=InitialNames", "", g.Where(mg.Pos()), "graph[rule] = rule.InitialNames() for every rule", "the first-graph is not built from every rule's InitialNames")
+		edgesWhy, _ := c.firstGraphShape()
+		r.Check(edgesWhy == "", "C07-b", "G.builder.MakeFirstGraph:edges=InitialNames", "", g.Where(mg.Pos()), "graph[rule] = rule.InitialNames() for every rule", edgesWhy)
 	} else {
 		r.Fatal("anchor builder.MakeFirstGraph not found")
 	}
 	// ComputeLeftRecursives marks
 	cl := load.FuncDecl(bp, "", "ComputeLeftRecursives")
 	if cl != nil {
-		var marks []string
-		ast.Inspect(cl.Body, func(n ast.Node) bool {
-			if as, ok := n.(*ast.AssignStmt); ok {
-				l := nospace(as.Lhs[0])
-				if strings.HasSuffix(l, ".LeftRecursive") || l == "haveLeftRecursion" {
-					gs := guardsOf(cl.Body, as.Pos())
-					marks = append(marks, l+"="+nospace(as.Rhs[0])+" under ["+strings.Join(gs, ";")+"]")
-				}
-			}
-			return true
-		})
-		joined := strings.Join(marks, " | ")
-		ok := strings.Contains(joined, "rules[name].LeftRecursive=true under [len(scc)>1]") && strings.Contains(joined, "haveLeftRecursion=true under [len(scc)>1]") &&
-			strings.Contains(joined, "rules[name].LeftRecursive=true under [len(scc)<=1;ok]") && strings.Contains(joined, "haveLeftRecursion=true under [len(scc)<=1;ok]")
-		selfLoop := false
-		ast.Inspect(cl.Body, func(n ast.Node) bool {
-			if is, ok := n.(*ast.IfStmt); ok && is.Init != nil && strings.Contains(nospace(is.Init.(*ast.AssignStmt).Rhs[0]), "graph[name][name]") {
-				selfLoop = true
-			}
-			return true
-		})
-		r.Check(ok && selfLoop, "C07-b", "G.builder.ComputeLeftRecursives:marks", "", g.Where(cl.Pos()), "members of SCCs with more than one rule and self-loops are marked and reported", "marks: "+joined+fmt.Sprintf(" self-loop-test=%t", selfLoop))
+		lr := c.leftRecMarks()
+		var why []string
+		for _, k := range []string{"members", "selfloop", "report", "clears"} {
+			why = append(why, lr[k]...)
+		}
+		r.Check(len(why) == 0, "C07-b", "G.builder.ComputeLeftRecursives:marks", "", g.Where(cl.Pos()), "members of SCCs with more than one rule and self-loops are marked and reported", strings.Join(why, "; "))
 	} else {
 		r.Fatal("anchor builder.ComputeLeftRecursives not found")
 	}
@@ -616,53 +581,119 @@ func c07Visits(c *Ctx, g *load.G, kind string, nv *ast.FuncDecl, need []string) 
 	}
 }
 
-// c07Errors: no error of the detection pipeline is dropped or conditionally ignored.
+// c07Errors: no error of the detection pipeline is dropped or conditionally ignored. Decided on the normalised paths
+// of every builder function that calls one of the pipeline's fallible functions: after the call, the first thing a
+// path does is decide whether the error is nil, and on the non-nil side it returns a non-nil error without doing
+// anything else.
 func c07Errors(c *Ctx, g *load.G) {
 	r := c.R
 	bp := g.Pkg("builder")
-	callees := map[string]bool{"PrepareGrammar": true, "ComputeLeftRecursives": true, "findLeader": true, "FindCyclesInSCC": true}
+	callees := []string{"PrepareGrammar", "ComputeLeftRecursives", "findLeader", "FindCyclesInSCC"}
+	isCallee := map[string]int{} // name -> index of the error result
+	for _, n := range callees {
+		if fd := load.FuncDecl(bp, "", n); fd != nil && fd.Type.Results != nil {
+			k := 0
+			for _, f := range fd.Type.Results.List {
+				m := len(f.Names)
+				if m == 0 {
+					m = 1
+				}
+				if nospace(f.Type) == "error" {
+					isCallee[n] = k + m - 1
+				}
+				k += m
+			}
+		} else {
+			r.Fatal("anchor builder.%s not found", n)
+		}
+	}
+	nc := c.builderNorm().without(callees...)
 	n := 0
 	for _, fd := range load.AllFuncDecls(bp) {
 		if fd.Body == nil || strings.HasSuffix(g.Fset.Position(fd.Pos()).Filename, "_test.go") {
 			continue
 		}
-		ast.Inspect(fd.Body, func(nd ast.Node) bool {
-			blk, ok := nd.(*ast.BlockStmt)
-			if !ok {
-				return true
+		direct := map[string]bool{}
+		for _, ce := range callsIn(fd.Body) {
+			if _, ok := isCallee[callName(ce)]; ok {
+				direct[callName(ce)] = true
 			}
-			for i, st := range blk.List {
-				as, ok := st.(*ast.AssignStmt)
-				if !ok || len(as.Rhs) != 1 {
+		}
+		if len(direct) == 0 {
+			continue
+		}
+		bad := map[string][]string{}
+		seen := map[string]bool{}
+		for _, p := range nc.normPaths(fd) {
+			for ic, e := range p {
+				if e.Kind != "call" {
 					continue
 				}
-				ce, ok := as.Rhs[0].(*ast.CallExpr)
-				if !ok || !callees[callName(ce)] {
+				name := e.Text
+				if k := strings.Index(name, "("); k > 0 {
+					name = name[:k]
+				}
+				ek, ok := isCallee[name]
+				if !ok || !direct[name] {
 					continue
 				}
-				n++
-				errVar := nospace(as.Lhs[len(as.Lhs)-1])
-				construct := "G.builder." + fd.Name.Name + ":error-of-" + callName(ce)
-				okNext := false
-				why := "the error is assigned to " + errVar
-				if errVar != "_" && i+1 < len(blk.List) {
-					if is, ok := blk.List[i+1].(*ast.IfStmt); ok {
-						cond := nospace(is.Cond)
-						if cond == errVar+"!=nil" && len(is.Body.List) >= 1 {
-							if _, isRet := is.Body.List[len(is.Body.List)-1].(*ast.ReturnStmt); isRet {
-								okNext = true
+				seen[name] = true
+				E := fmt.Sprintf("res%d(%s)", ek, e.Text)
+				// the first event after the call that is not the delivery of its results
+				decided := ""
+				k := ic + 1
+				for ; k < len(p); k++ {
+					if p[k].Kind == "set" && strings.Contains(p[k].Text, "=res") && strings.HasSuffix(p[k].Text, "("+e.Text+")") {
+						continue
+					}
+					break
+				}
+				if k < len(p) && p[k].Kind == "+" && (p[k].Text == E+"!=nil" || p[k].Text == E+"==nil") {
+					decided = p[k].Text
+				}
+				if decided == "" {
+					what := "the path ends"
+					if k < len(p) {
+						what = "the path goes on with `" + abbreviate(p[k].Kind+" "+p[k].Text) + "`"
+					}
+					bad[name] = append(bad[name], "after the call "+what+" instead of testing its error")
+					continue
+				}
+				if strings.HasSuffix(decided, "!=nil") {
+					ret := ""
+					for _, e2 := range p[k+1:] {
+						switch e2.Kind {
+						case "return":
+							ret = e2.Text
+						case "set":
+							if dollarRe.FindString(e2.Text) == "" || !strings.HasPrefix(e2.Text, "$") {
+								bad[name] = append(bad[name], "on the error path `"+abbreviate(e2.Text)+"` is stored")
 							}
+						case "call":
+							if !strings.HasPrefix(e2.Text, "fmt.Errorf(") && !strings.HasPrefix(e2.Text, "errors.") {
+								bad[name] = append(bad[name], "on the error path `"+abbreviate(e2.Text)+"` is called")
+							}
+						case "+":
+							bad[name] = append(bad[name], "the error path depends on `"+abbreviate(e2.Text)+"`")
 						}
-						why = "the next statement tests `" + cond + "`"
-					} else {
-						why = "the next statement does not test the error"
+					}
+					parts := splitTop(ret, ",")
+					if ret == "" || parts[len(parts)-1] == "nil" {
+						bad[name] = append(bad[name], "the error path does not return a non-nil error (returns `"+ret+"`)")
 					}
 				}
-				r.Check(okNext, "C07-e", construct, "", g.Where(as.Pos()), "followed by if "+errVar+" != nil { return … }",
-					why+" instead of returning on exactly "+errVar+" != nil: when the analysis gives up (e.g. no leader candidate) the other results are zero values, so the grammar reads as free of left recursion and is accepted")
 			}
-			return true
-		})
+		}
+		for name := range direct {
+			n++
+			construct := "G.builder." + fd.Name.Name + ":error-of-" + name
+			if !seen[name] {
+				r.Bad("C07-e", construct, "", g.Where(fd.Pos()), "no path through the call could be read")
+				continue
+			}
+			r.Check(len(bad[name]) == 0, "C07-e", construct, "", g.Where(fd.Pos()), "every path tests the error right after the call and returns it when it is not nil",
+				strings.Join(uniq(bad[name]), "; ")+": when the analysis gives up (e.g. no leader candidate) the other results are zero values, so the grammar reads as free of left recursion and is accepted")
+		}
 	}
 	r.Min("C07-e error sites", 3, n)
 }
